@@ -268,6 +268,18 @@ static block_off_t io_read_next_mono(struct snapraid_io* io, void*** buffer)
 	return blockcur_schedule;
 }
 
+/**
+ * Record the position of a failed parity write.
+ *
+ * In the multi thread implementation the io mutex must be locked.
+ */
+static void io_writer_bad(struct snapraid_io* io, block_off_t position)
+{
+	assert(io->writer_bad_mac < io->writer_bad_max);
+
+	io->writer_bad_map[io->writer_bad_mac++] = position;
+}
+
 static void io_write_preset_mono(struct snapraid_io* io, block_off_t blockcur, int skip)
 {
 	unsigned i;
@@ -366,8 +378,10 @@ static void io_parity_write_mono(struct snapraid_io* io, unsigned* pos, unsigned
 		/* counts the number of errors in the global state */
 		/* like the writer threads do, the errors are cleared in io_write_preset_mono() */
 		error_index = task->state - IO_WRITER_ERROR_BASE;
-		if (error_index >= 0 && error_index < IO_WRITER_ERROR_MAX)
+		if (error_index >= 0 && error_index < IO_WRITER_ERROR_MAX) {
 			++io->writer_error[error_index];
+			io_writer_bad(io, task->position);
+		}
 	}
 
 	/* return the position */
@@ -479,8 +493,10 @@ static struct snapraid_task* io_writer_step(struct snapraid_worker* worker, int 
 
 	/* counts the number of errors in the global state */
 	error_index = state - IO_WRITER_ERROR_BASE;
-	if (error_index >= 0 && error_index < IO_WRITER_ERROR_MAX)
+	if (error_index >= 0 && error_index < IO_WRITER_ERROR_MAX) {
 		++io->writer_error[error_index];
+		io_writer_bad(io, worker->task_map[worker->index].position);
+	}
 
 	while (1) {
 		unsigned next_index;
@@ -1068,6 +1084,28 @@ void io_write_flush_errors(struct snapraid_io* io, int* writer_error)
 	}
 }
 
+int io_write_bad(struct snapraid_io* io, block_off_t* position)
+{
+	int ret = 0;
+
+#if HAVE_THREAD
+	if (io->io_max > 1)
+		thread_mutex_lock(&io->io_mutex);
+#endif
+
+	if (io->writer_bad_mac != 0) {
+		*position = io->writer_bad_map[--io->writer_bad_mac];
+		ret = 1;
+	}
+
+#if HAVE_THREAD
+	if (io->io_max > 1)
+		thread_mutex_unlock(&io->io_mutex);
+#endif
+
+	return ret;
+}
+
 void io_init(struct snapraid_io* io, struct snapraid_state* state,
 	unsigned io_cache, unsigned buffer_max,
 	void (*data_reader)(struct snapraid_worker*, struct snapraid_task*),
@@ -1138,6 +1176,9 @@ void io_init(struct snapraid_io* io, struct snapraid_state* state,
 	io->reader_list = malloc_nofail(io->reader_max + 1);
 	io->writer_map = malloc_nofail(sizeof(struct snapraid_worker) * io->writer_max);
 	io->writer_list = malloc_nofail(io->writer_max + 1);
+	io->writer_bad_max = io->io_max * io->writer_max;
+	io->writer_bad_map = malloc_nofail(sizeof(block_off_t) * io->writer_bad_max);
+	io->writer_bad_mac = 0;
 
 	io->data_base = 0;
 	io->data_count = handle_max;
@@ -1227,6 +1268,7 @@ void io_done(struct snapraid_io* io)
 	free(io->reader_list);
 	free(io->writer_map);
 	free(io->writer_list);
+	free(io->writer_bad_map);
 
 #if HAVE_THREAD
 	if (io->io_max > 1) {
